@@ -274,6 +274,34 @@ def witness_still_fails(f):
     return None
 
 
+_model_cache = {}
+
+
+def model_reproduces(case):
+    """A recorded finding is behaviour of the unchanged tree, and the Lean model mirrors that tree pass by pass. So a failure
+    may be put down to a finding only if the model, given the same program and mode, gives what the code under check gives.
+    True when they agree or when the model cannot judge the program (unsupported / no program text in the case)."""
+    src = case.get('program')
+    if not src or not isinstance(src, str):
+        return True
+    compress = bool(case.get('compress', True))
+    key = (src, compress)
+    if key in _model_cache:
+        return _model_cache[key]
+    ok = True
+    try:
+        from harness import progs, corr
+        asm = progs.get_asm()
+        res = progs.assemble_chunks(asm, src, compress)
+        if not (res.status == 'ok' and len(res.bytes) > 300000):
+            reply, = common.drv([corr.request(src, compress)])
+            ok = corr.compare(reply, res) != 'differ'
+    except Exception:
+        ok = True
+    _model_cache[key] = ok
+    return ok
+
+
 class Known:
     def __init__(self, prop):
         self.prop = prop
@@ -284,6 +312,11 @@ class Known:
         for f in self.findings:
             pred = CLASSES.get(f.get('class'))
             if pred and pred(case):
+                if not model_reproduces(case):
+                    # the failure has the shape of a recorded finding, but the model - which behaves like the tree the finding
+                    # was recorded on, defect included - does NOT behave like the code under check here: something else is wrong
+                    self.hits['(shape of %s, not reproduced by the model)' % f['id']] = self.hits.get('(shape of %s, not reproduced by the model)' % f['id'], 0) + 1
+                    return False
                 self.hits[f['id']] = self.hits.get(f['id'], 0) + 1
                 return True
         return False
